@@ -86,6 +86,10 @@ def impl(case):
                 ids = np.array(ids, dtype=np.int64)
             elif case.get('idskind') == 'array32':
                 ids = np.array(ids, dtype=np.int32)
+            elif case.get('idskind') == 'tuple':
+                ids = tuple(ids)
+            elif case.get('idskind') == 'range' and ids == list(range(ids[0], ids[0] + len(ids))):
+                ids = range(ids[0], ids[0] + len(ids))
             if case.get('pre_ids') is not None and isinstance(ids, np.ndarray):
                 # an earlier call with the SAME id array object holding another order, then reordered in place
                 want = ids.copy()
@@ -112,6 +116,8 @@ def impl(case):
         ids = case.get('ids')
         if ids is not None:
             ids = [c + base for c in ids]
+            if case.get('idskind') == 'tuple':
+                ids = tuple(ids)
         out = firing_rate(sc, cluster_ids=ids, bin_size=case['bs'], duration=case['dur'])
         return dict(arr=np.asarray(out).tolist())
     if case['op'] in ('increment', 'diff_shifted', 'create'):
@@ -354,6 +360,8 @@ def gen(tier, rng):
                 if ids is not None:
                     c['ids'] = ids
                     c['idbase'] = [0, 0, 1000001][(n + len(ids)) % 3]
+                    if k % 4 == 1:
+                        c['idskind'] = 'tuple'
                 yield c
     # the helpers on small arrays (exhaustive)
     for n in range(0, 5):
@@ -393,7 +401,7 @@ def gen(tier, rng):
         if rng.random() < .8:
             rng.shuffle(pool)
             c['ids'] = list(pool)
-            c['idskind'] = rng.pick(['list', 'array', 'array32'])
+            c['idskind'] = rng.pick(['list', 'array', 'array32', 'tuple', 'range'])
             if c['idskind'] != 'list' and rng.random() < .5:
                 c['pre_ids'] = rng.sample(c['ids'], len(c['ids']))
         if rng.random() < .2:
